@@ -32,9 +32,8 @@ func (m *Map[K, V]) LoadOrStoreFn(key K, f func() V) (V, bool) {
 	if v, loaded := m.Load(key); loaded {
 		return v, true
 	}
-	v := f()
-	m.m.Store(key, v)
-	return v, false
+	actual, loaded := m.m.LoadOrStore(key, f())
+	return actual.(V), loaded
 }
 
 func (m *Map[K, V]) Delete(key K) {
